@@ -26,8 +26,8 @@ ASSUMPTIONS = ['reference for UTF-8/16/32: Unicode 15 Table 3-7, D91, D92 (accep
                'best-fit (fallback) mappings of the vendor tables (U+FF01..U+FF5E, U+0110) and the EBCDIC NL/LF variants are an ambiguous range: only consistency with ICU\'s fallback/variant tables is asserted',
                'rejection = UTFDataFormatException/TranscodingException, or (only for a source that ends inside a sequence) the sequence left uneaten with no character produced',
                'document level: only combinations for which XML 1.0 4.3.3 / Appendix F is unambiguous']
-BUDGET = {'quick': 700, 'thorough': 24000}        # Hypothesis cases per worker (split lane + document lane); enumerations are fixed by the tier
-WALLCAP = {'quick': 1800, 'thorough': 5400}    # watchdog only (3x the expected time on a loaded machine)
+BUDGET = {'quick': 360, 'thorough': 24000}        # Hypothesis cases per worker (split lane + document lane); enumerations are fixed by the tier
+WALLCAP = {'quick': 500, 'thorough': 5400}     # watchdog only
 
 ASAN_TUNED = {'ASAN_OPTIONS': 'detect_leaks=1:abort_on_error=0:exitcode=86:allocator_may_return_null=1:detect_stack_use_after_return=0:symbolize=1:'
                               'handle_segv=1:quarantine_size_mb=1:thread_local_quarantine_size_kb=64:malloc_context_size=2'}
@@ -59,7 +59,22 @@ KNOWN = {
     'C05-icu-decode-substitutes-illegal#doc': {'level': 'doc', 'api': 'sax2', 'enc': 'gb18030', 'bom': False, 'declname': 'gb18030', 'expect': 'error',
         'why': 'the byte sequence 81 30 81 20 is illegal in gb18030', 'doc_b64': 'PD94bWwgdmVyc2lvbj0iMS4wIiBlbmNvZGluZz0iZ2IxODAzMCI/PjxhPoEwgSA8L2E+', 'utf8_b64': 'PGE+WDwvYT4='},
 }
-SKIP = ','.join(sorted(k for k in KNOWN if '#' not in k))
+# One id per open finding whose input class is currently excluded by construction.  When a finding is fixed in /repo, delete its id
+# from this set (nothing else): the class is then generated and asserted like everything else, and its witness must pass.
+ACTIVE_EXCLUSIONS = {
+    'C05-ucs4-decode-no-range-check',
+    'C05-ucs4-swapped-encode-supplementary',
+    'C05-utf8-encode-unpaired-surrogate',
+    'C05-ucs4-encode-lone-low-surrogate',
+    'C05-table-nul-unrepresentable',
+    'C05-table-can-truncates-codepoint',
+    'C05-table-bestfit-without-icu-counterpart',
+    'C05-icu-can-supplementary',
+    'C05-icu-encode-throw-overread',
+    'C05-icu-decode-substitutes-illegal',
+    'C05-icu-encode-small-buffer-throw',
+}
+SKIP = ','.join(sorted(ACTIVE_EXCLUSIONS))
 
 # ------------------------------------------------------------------------------------------------
 # third witness: python codecs against the ICU tables reported by the harness
@@ -434,7 +449,35 @@ def replay(case, ctx):
     return True, status + ' ' + text[:300]
 
 def known_witnesses():
-    return [(kid, dict(case)) for kid, case in sorted(KNOWN.items())]
+    return [(kid.split('#')[0], dict(case)) for kid, case in sorted(KNOWN.items())]
+
+TABLE_TCS = ('WINDOWS-1252', 'IBM037', 'IBM1047', 'IBM1140')
+ICU_TCS = ('ISO-8859-2', 'ISO-8859-5', 'ISO-8859-15', 'KOI8-R', 'windows-1251', 'Shift_JIS', 'EUC-JP', 'gb18030')
+def _hex(v, d=-1):
+    try: return int(str(v).split(',')[0].split(' ')[0], 16)
+    except ValueError: return d
 
 def classify(case, detail):
-    return case.get('finding')
+    """Signature predicates of the known findings (known_findings.d/C05.json) on a failing case."""
+    if case.get('finding'): return case['finding']
+    lane, tc = case.get('lane'), case.get('tc', ''); d = detail or ''
+    if case.get('level') == 'doc':
+        w = case.get('why', '')
+        if 'not a Unicode scalar value' in w: return 'C05-ucs4-decode-no-range-check'
+        if 'is illegal in' in w: return 'C05-icu-decode-substitutes-illegal'
+        return None
+    if lane == 'ucs4' and 'val' in case: return 'C05-ucs4-decode-no-range-check'
+    cps = [_hex(x) for x in str(case.get('cps', case.get('cp', ''))).split(',') if x]
+    supp = any(c >= 0x10000 for c in cps)
+    if tc == 'UCS-4BE' and supp and (lane == 'scalar' and 'transcodeTo' in d or lane == 'split' and case.get('dir') == 'to'): return 'C05-ucs4-swapped-encode-supplementary'
+    if lane == 'surr' and tc == 'UTF-8': return 'C05-utf8-encode-unpaired-surrogate'
+    if lane == 'surr' and tc.startswith('UCS-4') and 0xDC00 <= _hex(case.get('units', '')) <= 0xDFFF: return 'C05-ucs4-encode-lone-low-surrogate'
+    if tc in ICU_TCS and 'heap-buffer-overflow' in d and 'ICUTranscoder::transcodeTo' in d: return 'C05-icu-encode-throw-overread'
+    if lane == 'scalar' and tc in TABLE_TCS:
+        if cps == [0]: return 'C05-table-nul-unrepresentable'
+        if supp and 'canTranscodeTo=' in d: return 'C05-table-can-truncates-codepoint'
+        if tc == 'IBM1047' and cps == [0x110]: return 'C05-table-bestfit-without-icu-counterpart'
+    if lane == 'scalar' and tc in ICU_TCS and supp and 'canTranscodeTo=' in d: return 'C05-icu-can-supplementary'
+    if lane == 'raw-expect' or (lane == 'page' and tc in ICU_TCS and 'is not assigned' in d): return 'C05-icu-decode-substitutes-illegal'
+    if lane == 'split' and tc in ICU_TCS and case.get('dir') == 'to' and ('threw TranscodingException' in d or 'TranscodeToStr gave' in d): return 'C05-icu-encode-small-buffer-throw'
+    return None
